@@ -54,6 +54,14 @@ def ro_case(draw, families=None, exact_only=False, max_cons=4, allow_eq=True, al
                 kinds = set(p['t'] for p in s['pieces'])
                 if ('pn' in kinds or 'kl' in kinds) and len(s['pieces']) > 1:
                     s['pieces'] = [p for p in s['pieces'] if p['t'] in ('pn', 'kl')][:1]
+        if not lift and nz >= 2 and draw(st.integers(0, 9)) == 0:
+            # a product of plain Euclidean balls over consecutive blocks of z, written norm(z[a:b]) <= 1 (several cones with
+            # unit coefficients in one set)
+            cut = draw(st.integers(1, nz - 1))
+            cen = [0.0] * nz if draw(st.integers(0, 2)) > 0 else centre
+            s = {'nz': nz, 'nu': 0, 'centre': list(cen), 'pieces': [
+                {'t': 'l2', 'c': list(cen), 'r': draw(st.sampled_from([1.0, 1.0, 1.0, 2.0])), 'style': 'plainsel', 'sel': sel,
+                 'B': np.eye(nz)[sel].tolist()} for sel in (list(range(cut)), list(range(cut, nz)))]}
         sets.append(s)
     nu = nz if lift else 0
     nw = nz + nu
